@@ -10,6 +10,7 @@ broadcast use {axiom_string_ext, axiom_str_of, axiom_vec_ext, axiom_vec_of, axio
 //@include spec/quant_lemmas.rs
 //@include spec/fol_spec.rs
 //@include units/fol_lib.inc
+//@include spec/core_lemmas.rs
 //@include spec/gamma_lemmas.rs
 
 pub trait Apply: Sized {
